@@ -29,6 +29,9 @@ def main():
         except Exception as e:
             print(name, "meta.json unreadable", e)
         demo = meta.get("demo", "")
+        auto = (sys.argv[2] == "AUTO")
+        if auto:
+            prop = (meta.get("property") or "C00").strip()[:3]
         rec = {"property": prop, "summary": meta.get("summary"), "needs": meta.get("needs"), "demo": demo, "confirmations": {}}
         # clean state
         sh("git checkout -- . && git clean -fdq tests", wt)
@@ -64,7 +67,7 @@ def main():
         results = {}
         if rc == 0:
             try:
-                for cid in [prop] + extra:
+                for cid in list(dict.fromkeys([prop] + extra)):
                     rc, out = sh(f"set -o pipefail; ./check {cid} --tier quick 2>&1 | tail -6", "/verif", 1500)
                     viol = [l for l in out.splitlines() if l.startswith("VIOLATION")]
                     sig = [l.strip() for l in out.splitlines() if "signature=" in l]
